@@ -419,6 +419,14 @@ func (c *Ctx) finish(verifDir string, info propInfo, replayOnly string) int {
 		fmt.Printf("UNDECIDED property=%s %s\n", c.Prop, u)
 	}
 	os.MkdirAll(filepath.Join(verifDir, "evidence", "replay"), 0o755)
+	if replayOnly == "" {
+		// replay files of an earlier run of this property are stale now
+		if old, _ := filepath.Glob(filepath.Join(verifDir, "evidence", "replay", c.Prop+"-*.json")); old != nil {
+			for _, f := range old {
+				os.Remove(f)
+			}
+		}
+	}
 	var replays []string
 	for i, o := range viol {
 		rp := filepath.Join(verifDir, "evidence", "replay", fmt.Sprintf("%s-%d.json", c.Prop, i+1))
